@@ -99,6 +99,9 @@ pub fn types_for<B: Backend>(out: &mut Vec<TextType>) {
     let k = B::VER.k();
     tt!(out, B, "token.local", format!("{v}.local."), true, None, true, SealedToken<V<B>, Local, Raw, Vec<u8>>);
     tt!(out, B, "token.public", format!("{v}.public."), true, None, true, SealedToken<V<B>, Public, Raw, Vec<u8>>);
+    // the same token types under a payload encoding with a non-empty suffix
+    tt!(out, B, "token.local+suffix", format!("{v}.x1.local."), true, None, true, SealedToken<V<B>, Local, RawS, Vec<u8>>);
+    tt!(out, B, "token.public+suffix", format!("{v}.x1.public."), true, None, true, SealedToken<V<B>, Public, RawS, Vec<u8>>);
     tt!(out, B, "keytext.local", format!("{k}.local."), true, None, false, KeyText<V<B>, Local>);
     tt!(out, B, "keytext.public", format!("{k}.public."), true, None, false, KeyText<V<B>, Public>);
     tt!(out, B, "keytext.secret", format!("{k}.secret."), true, None, false, KeyText<V<B>, Secret>);
@@ -141,6 +144,12 @@ pub fn valid_strings<B: Backend>(seed: &KeySeed) -> Vec<(&'static str, String)> 
     }
     if let Ok(t) = UnsealedToken::<V<B>, Public, Raw>::new(Raw(msg.clone())).with_footer(footer.clone()).seal(&sk, aad) {
         out.push(("token.public", t.to_string()));
+    }
+    if let Ok(t) = UnsealedToken::<V<B>, Local, RawS>::new(RawS(msg.clone())).with_footer(footer.clone()).seal(&lk, aad) {
+        out.push(("token.local+suffix", t.to_string()));
+    }
+    if let Ok(t) = UnsealedToken::<V<B>, Public, RawS>::new(RawS(msg.clone())).with_footer(footer.clone()).seal(&sk, aad) {
+        out.push(("token.public+suffix", t.to_string()));
     }
     let lt = lk.expose_key().to_string();
     let st = sk.expose_key().to_string();
